@@ -69,6 +69,16 @@ def check(ctx):
     ctx.guard("C11.a NORMALISE-DOMINATES-USE", "scorers", lambda: check_scorers(ctx))
     ctx.guard("C11.b CARRY-INDEX", "converters", lambda: check_converters(ctx))
     ctx.guard("C11.b CARRY-INDEX", "check_data", lambda: check_normaliser_keeps_index(ctx))
+    # the index half of this property: index labels are never used as positions (rule C05.a)
+    from . import c05
+
+    before = len(ctx.obs)
+    for q in c05.CONVERTERS:
+        cls = ctx.P.cls(q)
+        ctx.guard("C11.b LABELS-NOT-POSITIONS", cls.name, lambda cls=cls: c05.check_s2d(ctx, cls), cls.module.relpath)
+    ctx.obs[before:] = [o for o in ctx.obs[before:] if "KIND-S2D" in o.rule or o.status != "HOLDS"]
+    for o in ctx.obs[before:]:
+        o.rule = o.rule.replace("C05.a KIND-S2D", "C11.b LABELS-NOT-POSITIONS (C05.a)")
     ctx.guard("C11.d FLOAT-KERNEL", "accumulators", lambda: check_float(ctx))
     ctx.expect_min("C11.a NORMALISE-DOMINATES-USE", sum(1 for o in ctx.obs if "NORMALISE" in o.rule), 30)
 
